@@ -28,6 +28,8 @@ import fandango.constraints.repetition_bounds as RB
 
 REPAIR_SPECS = {
     "rep2": '<start> ::= <n> ":" (<a> <b>){int(<n>)} ";"\n<n> ::= "0" | "1" | "2" | "3"\n<a> ::= "a"\n<b> ::= "b" | "c"\n',
+    # a repeated group with terminals inside and at its END (new iterations must go after the whole last iteration)
+    "rep3": '<start> ::= <n> ":" (<a> "=" <b> ";"){int(<n>)}\n<n> ::= "0" | "1" | "2" | "3"\n<a> ::= "a"\n<b> ::= "b" | "c"\n',
     "rep1": '<start> ::= <n> <item>{int(<n>)} <tail>\n<n> ::= "1" | "2" | "3"\n<item> ::= "i" | "j"\n<tail> ::= "z" | "zz"\nwhere str(<tail>) == "zz"\n',
     "eq": '<start> ::= <x> "-" <y>\n<x> ::= <d> | <d> <d>\n<y> ::= <d> | <d> <d>\n<d> ::= "0" | "1"\nwhere str(<x>) == str(<y>)\n',
     "range": '<start> ::= <lo> <hi> "[" <e>{int(<lo>), int(<hi>)} "]"\n<lo> ::= "0" | "1"\n<hi> ::= "2" | "3"\n<e> ::= "e" <f>?\n<f> ::= "f"\n',
